@@ -6,6 +6,9 @@ mod sampled;
 pub use sampled::SampledLFU;
 mod tinylfu;
 pub use tinylfu::TinyLFU;
+#[cfg(feature = "verif-hooks")]
+#[doc(hidden)]
+pub use tinylfu::VerifTinyLFUState;
 
 mod wtinylfu;
 pub use wtinylfu::{WTinyLFUCache, WTinyLFUCacheBuilder};
